@@ -7,6 +7,7 @@
 import Frrs.Proofs.Glob
 import Frrs.FileChange
 import Frrs.CliPath
+import Frrs.Proofs.Cli
 namespace Frrs.C16
 open Frrs
 set_option linter.unusedSimpArgs false
@@ -158,5 +159,42 @@ example : GlobSpec b!"*/?" b!"ab/c" :=
 example : (normalizeCliPath false b!"src\\lib").toOption = some b!"src/lib" := by decide +kernel
 example : isErr (normalizeCliPath false b!"a/../b") = true := by decide +kernel
 example : shouldKeep { globs := [b!"*.md"], invert := true } [b!"README.md"] = false := by decide +kernel
+
+
+/-! ### from the command line to the filter (model of `parse_args`, Frrs/Cli.lean) -/
+
+/-- **Every `--path` selector the run is given passed the normaliser** — as typed, or with the `/` that
+    `--subdirectory-filter` adds — whatever else is on the command line. -/
+theorem selectors_passed_the_normaliser (badRegex argv : List Bytes) (o : Cli.CliOpts)
+    (h : Cli.parseArgs badRegex argv = .ok o) :
+    ∀ p ∈ o.paths, ∃ v d, normalizeCliPath false v = .ok d ∧ (p = d ∨ p = Cli.withSlash d) :=
+  Cli.selectors_are_normalised badRegex argv o h
+
+theorem bs2slash_ne_bs (b : UInt8) : bs2slash b ≠ B.bs := by
+  unfold bs2slash
+  split
+  · decide
+  · rename_i h; simpa using h
+
+/-- hence no selector that reaches the filter contains a backslash: they were all read as `/` -/
+theorem no_backslash_reaches_the_filter (badRegex argv : List Bytes) (o : Cli.CliOpts)
+    (h : Cli.parseArgs badRegex argv = .ok o) : ∀ p ∈ o.paths, B.bs ∉ p := by
+  intro p hp
+  obtain ⟨v, d, hd, hpd⟩ := selectors_passed_the_normaliser badRegex argv o h p hp
+  have hmap := cli_ok_is_map false v d hd
+  have hd' : B.bs ∉ d := by
+    rw [hmap]
+    intro hmem
+    obtain ⟨b, _, hb⟩ := List.mem_map.mp hmem
+    exact bs2slash_ne_bs b hb
+  rcases hpd with rfl | rfl
+  · exact hd'
+  · unfold Cli.withSlash
+    split
+    · exact hd'
+    · intro hmem
+      rcases List.mem_append.mp hmem with h1 | h1
+      · exact hd' h1
+      · simp [B.bs, B.slash] at h1
 
 end Frrs.C16
